@@ -277,6 +277,9 @@ def enqueue_outputs_on_the_named_port(b):
   act = b.new(of.ofp_action_enqueue, port=port, queue_id=b.int("queue_id", 0, 0xffffffff))
   return Case(SoftwareSwitchBase._action_enqueue, [sw, act, e, in_port], calls=out_calls(b, sw, wire), ensures={
     "sent_on_the_action_s_port": lambda res: emitted(b) == [p["no"] for p in info if p["no"] == port and port != in_port and can_send(p)],
+    # every action handler hands the frame on to the next action of the list (seeded change C18_10 returned the result of the
+    # output call, None: the action behind an enqueue then failed, and a buffer used with such a list was never freed)
+    "the_frame_is_handed_on_to_the_next_action": lambda res: res is e,
   })
   enqueue_outputs_on_the_named_port.bound = "three ports"
 
